@@ -86,6 +86,12 @@ struct Exporter {
     rec: TcpRecorder,
     addr: SocketAddr,
 }
+impl Drop for Exporter {
+    fn drop(&mut self) {
+        // the exporter has no shutdown of its own: let its transport thread exit, or thousands of them pile up
+        self.rec.verif_retire();
+    }
+}
 
 static NET: std::sync::atomic::AtomicUsize = std::sync::atomic::AtomicUsize::new(0);
 static SEQ: std::sync::atomic::AtomicUsize = std::sync::atomic::AtomicUsize::new(0);
@@ -411,8 +417,8 @@ fn sweep(ctx: &Ctx, res: &mut PartResult, len: usize, nclients: usize, buffer: O
                 continue;
             }
         }
-        if ctx.over_budget() || done > 4500 {
-            res.cap_hit = Some(if done > 4500 { "history cap per process (file descriptors)".into() } else { "wall budget".into() });
+        if ctx.over_budget() || done > 60000 {
+            res.cap_hit = Some(if done > 60000 { "history cap per process".into() } else { "wall budget".into() });
             res.exhaustive = false;
             break;
         }
@@ -608,9 +614,9 @@ fn parts(ctx: &Ctx) -> Vec<PartSpec> {
                 v.push(PartSpec::new(&format!("histories-len4-2clients-buffer{}-shard{}", bn, s), json!({"len": 4, "clients": 2, "buffer": bj, "dev": 1, "devlen": 3, "shard": s, "shards": shards})).budget(b));
             }
         } else {
-            let shards = 14;
+            let shards = 28;
             for s in 0..shards {
-                v.push(PartSpec::new(&format!("histories-len5-3clients-buffer{}-shard{}", bn, s), json!({"len": 5, "clients": 3, "buffer": bj, "dev": if bv == Some(1024) { 2 } else { 1 }, "devlen": 4, "shard": s, "shards": shards})).budget(b));
+                v.push(PartSpec::new(&format!("histories-len6-3clients-buffer{}-shard{}", bn, s), json!({"len": 6, "clients": 3, "buffer": bj, "dev": if bv == Some(1024) { 2 } else { 1 }, "devlen": 4, "shard": s, "shards": shards})).budget(b));
             }
         }
         if ctx.quick() && (bv == Some(1) || bv == Some(2)) {
